@@ -1259,6 +1259,8 @@ pub fn run_c19_check(tier: &str, seed: u64, workers: u64, runs_override: Option<
             "tag_switches_or_optimize_between_concurrent_phases": g("mutations_between_phases"),
             "threads_total": g("threads"),
             "queries_total": g("queries"),
+            "rwlock_scenarios_with_long_lived_workers_and_a_mutator_thread": g("rwlock_scenarios"),
+            "scenarios_with_a_second_engine_queried_concurrently": g("scenarios_with_second_engine"),
             "shared_engine_runs": g("shared_engine_runs"),
             "shared_blocker_runs": g("shared_blocker_runs"),
             "scheduling_points_reached_inside_regex_manager": g("yield_points_reached"),
